@@ -53,3 +53,10 @@ PROPS["C02"] = {
     "level_text": "(in progress) functional contracts of the conversion routes against the spec function conv",
     "level_note": "floats are reals; WF/QI assumed for inputs",
 }
+
+PROPS["C08"] = {
+    "tasks": lambda tier: [V(SC + ".__lt__#ordering"), ("lemma_c01_compose", {})],
+    "level": "proof",
+    "level_text": "(in progress)",
+    "level_note": "floats are reals; WF/QI assumed for inputs",
+}
